@@ -261,6 +261,13 @@ func execAttack(w *world.World, s Step) bool {
 			vs = vs[:s.T]
 		}
 		for _, v := range vs {
+			// a form that still is a well-formed DH-Key with another value in range is accepted by
+			// design (first DH-Key wins): it only makes sense as a replacement of the genuine one
+			if ab := w.Abs([][]byte{v.raw}, p.Peer, p.Name); ab["t"] == "DHK" {
+				if gy, ok := ab["gy"].(int); ok && gy != -2 && gy != wm.Abs["gy"] {
+					continue
+				}
+			}
 			w.ReceiveAttack(p, [][]byte{v.raw}, v.name)
 		}
 		// unauthenticated plaintext lines (plain and whitespace-tagged) slipped into the conversation
@@ -445,8 +452,21 @@ func deviantSMP(w *world.World, wm *world.WireMsg, idx int) ([]byte, string, str
 		one, zero := big.NewInt(1), big.NewInt(0)
 		c2 := hashBN(3, new(big.Int).Exp(ref.G, r2, ref.P))
 		c3 := hashBN(4, new(big.Int).Exp(ref.G, r3, ref.P))
+		// which of Pb / Qb is the non-invertible one, and in which representation (0 or p)
+		pb, qb := one, zero
+		d5 := big.NewInt(5)
 		cp := hashBN(5, one, zero)
-		ms := []*big.Int{one, c2, r2, one, c3, r3, one, zero, cp, big.NewInt(5), big.NewInt(7)}
+		switch (idx / 7) % 4 {
+		case 1:
+			qb = new(big.Int).Set(ref.P)
+		case 2:
+			pb, qb = new(big.Int).Set(ref.P), one
+			cp = hashBN(5, zero, new(big.Int).Exp(ref.G, d5, ref.P))
+		case 3:
+			pb, qb = zero, one
+			cp = hashBN(5, zero, new(big.Int).Exp(ref.G, d5, ref.P))
+		}
+		ms := []*big.Int{one, c2, r2, one, c3, r3, pb, qb, cp, d5, big.NewInt(7)}
 		b := ref.PutWord(nil, 11)
 		for _, m := range ms {
 			b = ref.PutMPI(b, m)
